@@ -57,14 +57,28 @@ pub fn step(w: &mut World, e: &Value) -> Value {
 		}
 		"lock" => w.lock(&wn, &sl, e["stage"].as_str().unwrap_or("S1"), e["rep"].as_u64().unwrap_or(0) as usize),
 		"receive" => w.receive(&wn, &sl, e["dest"].as_str().unwrap_or(""), None),
-		"finalize" => w.finalize(
-			&wn,
-			&sl,
-			e["stage"].as_str().unwrap_or("S2"),
-			e["rep"].as_u64().unwrap_or(0) as usize,
-			None,
-			e["foreign"].as_bool().unwrap_or(false),
-		),
+		"finalize" => {
+			let tamper = e["tamper"].as_str().unwrap_or("");
+			if tamper == "bogus" {
+				// the initiator's own S1 slate relabelled as a reply
+				let s = w.pick(&sl, "S1", 0).map(|mut s| {
+					s.state = crate::libwallet::SlateState::Standard2;
+					s
+				});
+				let mut r = w.finalize(&wn, &sl, "S2", 0, s, e["foreign"].as_bool().unwrap_or(true));
+				r["tamper"] = json!("bogus");
+				r
+			} else {
+				w.finalize(
+					&wn,
+					&sl,
+					e["stage"].as_str().unwrap_or("S2"),
+					e["rep"].as_u64().unwrap_or(0) as usize,
+					None,
+					e["foreign"].as_bool().unwrap_or(false),
+				)
+			}
+		}
 		"post" => w.post(&sl),
 		"mine" => {
 			let to = e["to"].as_str().filter(|s| !s.is_empty()).map(|s| s.to_string());
@@ -116,6 +130,16 @@ pub fn run_behaviour(dir: &str, setup: &Value, beh: &[Value], bid: usize) -> Vec
 	let obs = w.obs();
 	out.push(json!({"ev": "reset", "b": bid, "setup": setup, "res": "ok", "obs": obs}).to_string());
 	for e in beh {
+		if e["ev"] == "cancel" {
+			// owner::cancel_tx refreshes first; make that refresh observable on its own so
+			// that the rollback can be judged against the state right before the cancel batch
+			let wn = e["w"].as_str().unwrap_or("w1").to_string();
+			let mut r = w.refresh(&wn, 1);
+			r["auto"] = json!(true);
+			r["b"] = json!(bid);
+			r["obs"] = w.obs();
+			out.push(r.to_string());
+		}
 		let mut r = step(&mut w, e);
 		r["b"] = json!(bid);
 		r["obs"] = w.obs();
